@@ -4,10 +4,15 @@
    identifier pool: compile, then compare the compiled machine with the model of the renamed
    definition).  What is proved: the model's run-time semantics consults identifiers only through
    equality, the hygiene predicate characterises the captures by the generated type parameters, and the
-   property is refuted on the current tree for that class (known finding F4). *)
+   property is refuted on the current tree for that class (known finding F4).  The two naturality
+   theorems say it for whole generated programs: relabelling every identifier of a generated program,
+   of the machine value it runs on and of the names carried by the hooks' aborts relabels the outcome
+   (results, errors, traces, states, data fields) and changes nothing else -- for a method run under
+   any relabelling, for dispatch through the dynamic wrapper under any injective one that fixes the two
+   literals of the generated code that are not identifiers. *)
 From Coq Require Import String List Bool Arith.
 From SM Require Import Ident Ast Front Spec Gir Codegen Sem Dyn Script Static.
-From SM.Lemmas Require Import FrontLemmas FrontTop GirLemmas SemLemmas RefSem SemProps HookTheorems Examples.
+From SM.Lemmas Require Import FrontLemmas FrontTop GirLemmas SemLemmas RefSem SemProps HookTheorems Examples RenameLemmas.
 Import ListNotations.
 Open Scope string_scope.
 Open Scope list_scope.
@@ -34,6 +39,58 @@ Proof.
   rewrite <- (G (hooks_of (g_hooks e)) 0). unfold hooks_of. cbn [h_around h_guards h_unless h_before h_after].
   rewrite !map_app, !map_map. cbn [fst snd]. reflexivity.
 Qed.
+
+(* a run of a generated method never compares identifiers: they are labels *)
+Theorem C18_method_run_is_natural_in_identifiers :
+  forall (f : ident -> ident) (gm : gmethod) (self : tmachine) (pl : option nat) (w : oracle) (b : option nat),
+  run_method (rn_method f gm) (rn_tm f self) pl (rn_oracle f w) b = rn_out f (run_method gm self pl w b).
+Proof. exact run_method_rn. Qed.
+
+(* the dynamic wrapper compares states, event variants and method names, and only for equality *)
+Theorem C18_dispatch_is_natural_in_identifiers :
+  forall (f : ident -> ident),
+  (forall a b, f a = f b -> a = b) -> f "" = "" -> f "<extracted>" = "<extracted>" ->
+  forall (g : gir) (gd : gdyn) (d : dyn),
+  (forall ctx, dyn_new (rn_gir f g) (rn_gdyn f gd) ctx = option_map (rn_dyn f) (dyn_new g gd ctx)) /\
+  (forall ev pl w b,
+     handle (rn_gir f g) (rn_gdyn f gd) (rn_dyn f d) (f ev) pl (rn_oracle f w) b
+     = rn_hout f (handle g gd d ev pl w b)) /\
+  current_state (rn_gdyn f gd) (rn_dyn f d) = option_map f (current_state gd d) /\
+  (forall v, into_state (f v) (rn_dyn f d)
+             = match into_state v d with inl tm => inl (rn_tm f tm) | inr d' => inr (rn_dyn f d') end) /\
+  (forall a, acc_read (rn_acc f a) (rn_dyn f d) = acc_read a d) /\
+  (forall a v, acc_write (rn_acc f a) (rn_dyn f d) v = (rn_dyn f (fst (acc_write a d v)), snd (acc_write a d v))) /\
+  (forall a v, acc_set (rn_gdyn f gd) (rn_acc f a) (rn_dyn f d) v
+               = (rn_dyn f (fst (acc_set gd a d v)), option_map (rn_derr f) (snd (acc_set gd a d v)))).
+Proof.
+  intros f Hi He Hx g gd d.
+  split; [intros ctx; apply dyn_new_rn; assumption|].
+  split; [intros ev pl w b; apply handle_rn; assumption|].
+  split; [apply current_state_rn; assumption|].
+  split; [intros v; apply into_state_rn; assumption|].
+  split; [intros a; apply acc_read_rn; assumption|].
+  split; [intros a v; apply acc_write_rn; assumption|].
+  intros a v; apply acc_set_rn; assumption.
+Qed.
+
+(* the hypotheses are satisfiable by a relabelling that moves every identifier, and the generated
+   program of a renamed definition is the relabelled generated program of the original one (an
+   instance: the example definition with its states, events and hooks prefixed; the case conversions
+   of codegen commute with this relabelling on these names) *)
+Example C18_relabelling_exists :
+  (forall a b, prefix_z a = prefix_z b -> a = b) /\ prefix_z "" = "" /\ prefix_z "<extracted>" = "<extracted>" /\
+  prefix_z "Idle" = "zIdle".
+Proof. split; [exact prefix_z_inj|repeat split; reflexivity]. Qed.
+
+(* ... and on the example program the relabelled dispatch is a real run: nine hook calls, Ok, and
+   the relabelled target state *)
+Example C18_relabelled_run :
+  let o := handle (rn_gir prefix_z ex_gir) (rn_gdyn prefix_z ex_gdyn) (rn_dyn prefix_z (Build_dyn (Some ex_self)))
+                  (prefix_z "go") (Some 3) (fun _ => Build_ans ADefault 0) None in
+  ho_res o = HOk /\ length (ho_trace o) = 9 /\ current_state (rn_gdyn prefix_z ex_gdyn) (ho_dyn o) = Some "zD2" /\
+  current_state ex_gdyn (ho_dyn (handle ex_gir ex_gdyn (Build_dyn (Some ex_self)) "go" (Some 3)
+                                        (fun _ => Build_ans ADefault 0) None)) = Some "D2".
+Proof. vm_compute. repeat split; reflexivity. Qed.
 
 (* the property fails on the current tree for identifiers equal to a generated type parameter: this
    accepted definition names a state `C`, which the header `impl<C> M<C, C>` resolves to the parameter
@@ -67,5 +124,7 @@ Example C18_example_hygienic :
 Proof. split; vm_compute; reflexivity. Qed.
 
 Print Assumptions C18_success_does_not_depend_on_hook_names.
+Print Assumptions C18_method_run_is_natural_in_identifiers.
+Print Assumptions C18_dispatch_is_natural_in_identifiers.
 Print Assumptions C18_refuted_by_generic_parameter_capture.
 Print Assumptions C18_hygienic_characterisation.
